@@ -48,10 +48,11 @@ Proof. apply disjointb_spec. vm_compute. reflexivity. Qed.
 Theorem C01_log_returns : forall f, In f external_calls -> ~ In f no_return_family.
 Proof. apply disjointb_spec. vm_compute. reflexivity. Qed.
 
-(** every call through a pointer in the whole library is one of: the two wrappers' final call, a registry
+(** every call through a pointer in the whole library is one of: the two wrappers' final call (through a local pointer whose
+    only value is [dlsym] of the wrapper's own name, whatever the variable is called), a registry
     table call (C13: own implementations only), the INI parser's handler/reader, the option registry's parsers *)
 Definition allowed_indirect : list string :=
-  ["execv:func"; "execve:func";
+  ["execv:dlsym<execv>"; "execve:dlsym<execve>";
    "snoopy_datasourceregistry_callById:snoopy_datasourceregistry_ptrs"; "snoopy_datasourceregistry_callByName:snoopy_datasourceregistry_ptrs";
    "snoopy_filterregistry_callById:snoopy_filterregistry_ptrs"; "snoopy_filterregistry_callByName:snoopy_filterregistry_ptrs";
    "snoopy_outputregistry_callById:snoopy_outputregistry_ptrs"; "snoopy_outputregistry_callByName:snoopy_outputregistry_ptrs";
